@@ -553,26 +553,19 @@ func init() {
 	reg("sort.Slice", sortSlice("pdqsort_func"))
 	reg("sort.SliceStable", sortSlice("stable_func"))
 
-	// --- reflect (minimal): types are carried as opaque go/types values ---
-	rtype := func(in *Interp, t types.Type) Value {
-		rp := in.P.Pkgs["reflect"]
-		if rp == nil || rp.Type("rtype") == nil {
-			in.unsupported("package reflect not loaded")
-		}
-		return Iface{T: types.NewPointer(rp.Type("rtype").Object().Type()), V: Opaque{t}}
-	}
+	// --- reflect: see reflect.go for Value; types are carried as typeKey ---
 	reg("reflect.TypeFor", func(in *Interp, fn *ssa.Function, a []Value) Value {
-		return rtype(in, fn.TypeArgs()[0])
+		return in.rtypeOf(fn.TypeArgs()[0])
 	})
 	reg("reflect.TypeOf", func(in *Interp, fn *ssa.Function, a []Value) Value {
 		i := a[0].(Iface)
 		if i.T == nil {
 			return Iface{}
 		}
-		return rtype(in, i.T)
+		return in.rtypeOf(i.T)
 	})
 	reg("(*reflect.rtype).String", func(in *Interp, fn *ssa.Function, a []Value) Value {
-		return types.TypeString(a[0].(Opaque).X.(types.Type), nil)
+		return types.TypeString(rtypeArg(a[0]), nil)
 	})
 
 	// --- fmt ---
